@@ -7217,13 +7217,48 @@ let rec store_tree fuel id t0 =
   | S f ->
     bind (get_cell id) (fun cl ->
       match t0 with
-      | VInt z0 -> set_cell_val id (PInt z0)
-      | VReal r -> set_cell_val id (PReal r)
-      | VBool b -> set_cell_val id (PBool b)
-      | VChar ch -> set_cell_val id (PChar ch)
-      | VStr s -> set_cell_val id (PStr s)
-      | VDate (d, m0, y) -> set_cell_val id (PDate (d, m0, y))
-      | VEnum (tn, _, i) -> set_cell_val id (PEnum (tn, i))
+      | VInt z0 ->
+        (match cl.c_val with
+         | PInt _ -> set_cell_val id (PInt z0)
+         | _ ->
+           crash
+             ('c'::('e'::('l'::('l'::(' '::('p'::('a'::('y'::('l'::('o'::('a'::('d'::(' '::('d'::('i'::('s'::('a'::('g'::('r'::('e'::('e'::('s'::(' '::('w'::('i'::('t'::('h'::(' '::('i'::('t'::('s'::(' '::('t'::('y'::('p'::('e'::[])))))))))))))))))))))))))))))))))))))
+      | VReal r ->
+        (match cl.c_val with
+         | PReal _ -> set_cell_val id (PReal r)
+         | _ ->
+           crash
+             ('c'::('e'::('l'::('l'::(' '::('p'::('a'::('y'::('l'::('o'::('a'::('d'::(' '::('d'::('i'::('s'::('a'::('g'::('r'::('e'::('e'::('s'::(' '::('w'::('i'::('t'::('h'::(' '::('i'::('t'::('s'::(' '::('t'::('y'::('p'::('e'::[])))))))))))))))))))))))))))))))))))))
+      | VBool b ->
+        (match cl.c_val with
+         | PBool _ -> set_cell_val id (PBool b)
+         | _ ->
+           crash
+             ('c'::('e'::('l'::('l'::(' '::('p'::('a'::('y'::('l'::('o'::('a'::('d'::(' '::('d'::('i'::('s'::('a'::('g'::('r'::('e'::('e'::('s'::(' '::('w'::('i'::('t'::('h'::(' '::('i'::('t'::('s'::(' '::('t'::('y'::('p'::('e'::[])))))))))))))))))))))))))))))))))))))
+      | VChar ch ->
+        (match cl.c_val with
+         | PChar _ -> set_cell_val id (PChar ch)
+         | _ ->
+           crash
+             ('c'::('e'::('l'::('l'::(' '::('p'::('a'::('y'::('l'::('o'::('a'::('d'::(' '::('d'::('i'::('s'::('a'::('g'::('r'::('e'::('e'::('s'::(' '::('w'::('i'::('t'::('h'::(' '::('i'::('t'::('s'::(' '::('t'::('y'::('p'::('e'::[])))))))))))))))))))))))))))))))))))))
+      | VStr s ->
+        (match cl.c_val with
+         | PStr _ -> set_cell_val id (PStr s)
+         | _ ->
+           crash
+             ('c'::('e'::('l'::('l'::(' '::('p'::('a'::('y'::('l'::('o'::('a'::('d'::(' '::('d'::('i'::('s'::('a'::('g'::('r'::('e'::('e'::('s'::(' '::('w'::('i'::('t'::('h'::(' '::('i'::('t'::('s'::(' '::('t'::('y'::('p'::('e'::[])))))))))))))))))))))))))))))))))))))
+      | VDate (d, m0, y) ->
+        (match cl.c_val with
+         | PDate (_, _, _) -> set_cell_val id (PDate (d, m0, y))
+         | _ ->
+           crash
+             ('c'::('e'::('l'::('l'::(' '::('p'::('a'::('y'::('l'::('o'::('a'::('d'::(' '::('d'::('i'::('s'::('a'::('g'::('r'::('e'::('e'::('s'::(' '::('w'::('i'::('t'::('h'::(' '::('i'::('t'::('s'::(' '::('t'::('y'::('p'::('e'::[])))))))))))))))))))))))))))))))))))))
+      | VEnum (tn, _, i) ->
+        (match cl.c_val with
+         | PEnum (_, _) -> set_cell_val id (PEnum (tn, i))
+         | _ ->
+           crash
+             ('c'::('e'::('l'::('l'::(' '::('p'::('a'::('y'::('l'::('o'::('a'::('d'::(' '::('d'::('i'::('s'::('a'::('g'::('r'::('e'::('e'::('s'::(' '::('w'::('i'::('t'::('h'::(' '::('i'::('t'::('s'::(' '::('t'::('y'::('p'::('e'::[])))))))))))))))))))))))))))))))))))))
       | VPtr -> ret ()
       | VRec (_, fs, ars) ->
         (match cl.c_val with
